@@ -279,6 +279,36 @@ func (p *Program) reservedCalls(fn *ssa.Function, key ssa.Value) []*ssa.Call {
 	return out
 }
 
+// reservedArgCaseOK: none of the reserved-predicate calls is applied to a key that went through a function that
+// changes its case away from lower case.
+func (p *Program) reservedArgCaseOK(rcs []*ssa.Call) bool {
+	ok := true
+	for _, rc := range rcs {
+		seen := map[ssa.Value]bool{}
+		var walk func(v ssa.Value, d int)
+		walk = func(v ssa.Value, d int) {
+			if d > 6 || seen[v] {
+				return
+			}
+			seen[v] = true
+			for _, o := range p.origins(v, originOpts{}) {
+				c, isCall := o.(*ssa.Call)
+				if !isCall {
+					continue
+				}
+				switch calleeName(c) {
+				case "net/textproto.CanonicalMIMEHeaderKey", "net/http.CanonicalHeaderKey", "strings.ToUpper", "strings.Title", "strings.ToTitle":
+					ok = false
+				case "strings.ToLower", "strings.TrimSpace", "strings.TrimPrefix", "strings.TrimSuffix":
+					walk(c.Call.Args[0], d+1)
+				}
+			}
+		}
+		walk(rc.Call.Args[0], 0)
+	}
+	return ok
+}
+
 func ruleMDGateOut(r *Run) {
 	p := r.P
 	gates := p.findGates(isMDType, isHeaderType)
@@ -309,6 +339,12 @@ func ruleMDGateOut(r *Run) {
 			}
 			r.check(filtered, key+"/reserved-filter", g.update.Pos(), "the header write is unreachable for a key the reserved test refuses",
 				"the header write is still reachable when the reserved-key test is true: reserved keys set by a handler reach the response header")
+		}
+		// (a') the key is tested in the case the reserved table is written in (lower case): a canonicalised or
+		// upper-cased key never equals an entry and the filter lets everything through
+		if len(rcs) > 0 {
+			r.check(p.reservedArgCaseOK(rcs), key+"/reserved-filter-case", g.update.Pos(), "the reserved test is applied to the key as the table spells it (raw metadata key / lower-cased)",
+				"the reserved-key test is applied to a canonicalised or upper-cased key (textproto.CanonicalMIMEHeaderKey, http.CanonicalHeaderKey, strings.ToUpper/Title) while the reserved table is lower-case: no key ever matches, handler metadata named content-type, content-encoding, grpc-status … overrides the transport's own headers")
 		}
 		// (b) -bin values are encoded
 		r.check(p.binTransform(g, "larking.io/larking.encodeBinHeader"), key+"/bin-encode", g.update.Pos(), "values of '-bin' keys pass through encodeBinHeader",
